@@ -240,6 +240,8 @@ def gen_clf_spec(g: SimRng, kind, classes, allow_cost=True):
             p["metric_dict"] = {"gamma": "mean"}
         elif r < 0.6:
             p["metric_dict"] = {"gamma": g.pick([0.1, 1.0, 5.0])}
+        elif r < 0.7:
+            p["metric_dict"] = {}
         if g.chance(0.25):
             p["n_neighbors"] = g.pick([1, 2, 5])
         if g.chance(0.3):
@@ -278,13 +280,15 @@ def gen_clf_spec(g: SimRng, kind, classes, allow_cost=True):
 
 
 def gen_reg_spec(g: SimRng, kind):
-    p = {"random_state": g.randrange(0, 100)}
+    p = {"random_state": g.randrange(0, 100) if g.chance(0.8) else None}  # (a regressor's own seed is only used for sampling)
     if g.chance(0.25):
         p["missing_label"] = -12345.0  # a non-NaN sentinel that is never a target value
     if kind in ("nic", "nwr"):
         r = g.random()
         if r < 0.4:
             p["metric_dict"] = {"gamma": g.pick([0.1, 1.0, 5.0])}
+        elif r < 0.5:
+            p["metric_dict"] = {}
         if kind == "nic":
             if g.chance(0.5):
                 # (a prior centred on far-away targets: then the data, not the prior/data disagreement, decides the scale)
@@ -363,6 +367,7 @@ def gen_query(g: SimRng, d, classes, scale):
     K = len(classes)
     pts = [np.arange(K)[:, None] * np.ones((1, d)) * 3.0 * scale]  # class centres
     pts.append(nr.normal(0, 3.0 * scale, (3, d)))
+    pts.append(nr.normal(0, 1.0, (1, d)) + 400.0 * scale)  # far from every training point: all kernel/density mass vanishes
     return np.round(np.vstack(pts), 4).tolist()
 
 
@@ -1220,8 +1225,9 @@ class C15Check(LifeCheckBase):
             except Exception:
                 pass
         try:
-            s1 = np.asarray(est.sample_y(Xq, 3, random_state=7))
-            s2 = np.asarray(est.sample_y(Xq, 3, random_state=7))
+            sd_seed = 0 if (t % 2 == 0) else 7  # 0 is a seed like any other
+            s1 = np.asarray(est.sample_y(Xq, 3, random_state=sd_seed))
+            s2 = np.asarray(est.sample_y(Xq, 3, random_state=sd_seed))
             ctx.probe("sample_y_checked")
             if s1.shape != (len(Xq), 3):
                 ctx.violate("sample-y-shape", subj, f"op {t}: sample_y returned shape {s1.shape}, expected {(len(Xq), 3)}", cond)
